@@ -417,8 +417,14 @@ func (o *OracleC05) AfterCall(n *Node, st *Step) {
 			}
 			authentic := false
 			for _, a := range s.authentic {
-				if a.H == e.Height && a.Idx == e.Index && a.V == e.View && a.Hash().String() == e.Hash {
-					authentic = true
+				if a.H == e.Height && a.Idx == e.Index && a.V == e.View && a.Hash().String() == e.Hash && a.sender >= 0 && a.sender < len(s.nodes) {
+					// ... and sender and receiver build on the same block (a receiver on another
+					// branch - known finding D1-fork - rightly finds the signature invalid)
+					for _, b := range s.nodes[a.sender].ledger {
+						if b.Idx == n.tip().Idx && b.Hash() == n.tip().Hash() {
+							authentic = true
+						}
+					}
 					break
 				}
 			}
